@@ -429,7 +429,10 @@ def rule_immediate(ctx):
     if nloops < 1 and not r.violations:
         raise AnalysisError("REC-IMMEDIATE: the loop over the popped edges was not found")
     # (3) periodic repin
-    ok = any(c.target in ("ebr_impl::internal::Local::repin_without_collect", "ebr_impl::internal::Local::repin_unless_foreign_guards") for (_, _, c) in b.calls())
+    # (in the cascade itself, or in a helper a refactoring split off it)
+    bs = [b] + [prog.bodies[h] for h in prog.auto_inline() if DGN in prog.path_roots(h)]
+    ok = any(c.target in ("ebr_impl::internal::Local::repin_without_collect", "ebr_impl::internal::Local::repin_unless_foreign_guards")
+             for x in bs for (_, _, c) in x.calls())
     r.instance("periodic repin_without_collect present", ok)
     if not ok:
         r.violate(DGN, "repin", "no periodic re-pin during long disposals: the epoch cannot advance while one pass runs")
